@@ -60,6 +60,17 @@ def replay_scores(data):
         from . import conc
         return conc.replay_cold(r)
     ver, s = r["ver"], r["s"]
+    if r.get("op") == "json-scores":
+        im = core.impl()
+        sc = im.cls[ver](s).scores()
+        bad = []
+        for so in (False, True):
+            for mi in (False, True):
+                js = im.cls[ver](s).as_json(sort=so, minimal=mi)
+                for k, x in zip(["baseScore", "temporalScore", "environmentalScore"], sc):
+                    if k in js and x is not None and js[k] != x:
+                        bad.append((so, mi, k, js[k]))
+        return not bad, "CVSS%s(%r): scores() %r; as_json scores that differ (sort, minimal, key, value): %r" % (ver, s, sc, bad)
     if r.get("repeat") or r.get("threads"):
         # repeated / concurrent construction of one string: every result must equal the specification's
         import threading
@@ -108,6 +119,23 @@ def extra_probes(ctx, ver, strings, label):
                               "constructing the identical string again in the same process gives different scores",
                               s, first[s], r, replay={"op": "scores", "ver": ver, "s": s, "repeat": rnd + 1})
                 return
+    # the scores as_json() reports (all four option sets) are the scores() just compared with the specification
+    JS = {"2": ["baseScore", "temporalScore", "environmentalScore"], "3": ["baseScore", "temporalScore", "environmentalScore"],
+          "4": ["baseScore"]}[ver]
+    im = core.impl()
+    for s in sample[:: max(1, len(sample) // ctx.n(1500, 20000))]:
+        try:
+            sc = im.cls[ver](s).scores()
+        except Exception:  # noqa
+            continue
+        for so in (False, True):
+            for mi in (False, True):
+                js = im.cls[ver](s).as_json(sort=so, minimal=mi)
+                ctx.count()
+                for k, x in zip(JS, sc):
+                    if k in js and x is not None and js[k] != x:
+                        ctx.violation("v%s:json-%s-differs-from-scores" % (ver, k), "the %s that as_json() reports differs from scores()" % k,
+                                      s, x, {"sort": so, "minimal": mi, k: js[k]}, replay={"op": "json-scores", "ver": ver, "s": s})
     small = sample[:: max(1, len(sample) // ctx.n(700, 6000))]
     conc.warm_threads(ctx, small, lambda s: core.impl_construct(ver, "s", s), "v%s" % ver,
                       replay_of=lambda s: {"op": "scores", "ver": ver, "s": s, "threads": 4})
